@@ -175,3 +175,45 @@ func ZZ_C03_I23() {
 	}
 	n.end()
 }
+
+// ZZ_C03_I4: a signature lifted from an earlier, honestly signed and already
+// processed transaction of the same sender is put on a different transaction.
+// The second transaction must be rejected without effect whatever its fields
+// are (it differs from the first at least in the nonce).
+func ZZ_C03_I4() {
+	govp := ctrlertypes.Test1GovParams()
+	n := zzNewGenesisBanded(3, 1, govp).start()
+	n.emptyBlock(0)
+	n.emptyBlock(0)
+	n.begin(0, nil, nil)
+	from := 1 + zzverif.Choose("tx.from", 2)
+	a1 := zzverif.NondetU256Below("tx1.amount", new(uint256.Int).Lsh(uint256.NewInt(1), 64))
+	t1 := &zzTx{from: from, to: -2, typ: ctrlertypes.TRX_TRANSFER, amount: a1, gas: govp.MinTrxGas(), gasPrice: govp.GasPrice(), nonce: n.nonce(from), signer: from}
+	r1 := n.deliver(t1)
+	zzverif.Assume(r1.Code == 0)
+	sig1 := n.lastSig
+	if zzverif.Choose("second.in.next.block", 2) == 1 {
+		n.end()
+		n.begin(0, nil, nil)
+	}
+	// the forged transaction: any amount, receiver, type out of {transfer, set-document}, the sender's current nonce
+	a2 := zzverif.NondetU256Below("tx2.amount", new(uint256.Int).Lsh(uint256.NewInt(1), 64))
+	t2 := &zzTx{from: from, to: -2 - zzverif.Choose("tx2.to", 2), typ: ctrlertypes.TRX_TRANSFER, amount: a2, gas: govp.MinTrxGas(), gasPrice: govp.GasPrice(),
+		nonce: n.nonce(from), signer: from, forceSig: sig1}
+	if zzverif.Choose("tx2.setdoc", 2) == 1 {
+		t2.typ, t2.amount, t2.payload = ctrlertypes.TRX_SETDOC, uint256.NewInt(0), &ctrlertypes.TrxPayloadSetDoc{Name: "n", URL: "u"}
+	}
+	pre := n.snap(nil, nil)
+	r2 := n.deliver(t2)
+	zzverif.Assert(r2.Code != 0, "I4 a transaction carrying the signature of another transaction is rejected")
+	post := n.snap(nil, nil)
+	zzAssertSame(pre, post, "I4 rejected tx")
+	// and the honest path still works: the same fields, freshly signed
+	t2.forceSig = nil
+	r3 := n.deliver(t2)
+	if r3.Code == 0 {
+		zzverif.Reach("I4 honest second tx accepted")
+	}
+	n.end()
+	zzverif.Reach("I4 end")
+}
